@@ -132,6 +132,9 @@ class TransposeChromatic(NoteTransformer):
 
         dict_pitches = chord.pitch_dict
         pitch = chord.to_pitch(note)
+        if pitch is None:
+            # rests and continuations have no pitch to transpose
+            return note.copy()
         ref_note = dict_pitches[(pitch + self.n) % 12].o((pitch + self.n)//12)
         new_note = note.copy()
         new_note.val = ref_note.val
